@@ -44,6 +44,15 @@ def cases(tier, seed):
         if c['role'] == 'stack_bam_tx' and r < 0.7:
             c['bam_interval'] = rng.choice([0.01, 0.02, 0.05, 0.1, 0.15, 0.19])
         out.append(c)
+    # J1939-22 messages with more than 255 segments outstanding against a responder that grants the full 255 every time
+    for i in range(6 if tier == 'quick' else 40):
+        c = xchg.gen_case(rng, layer='j1939-22', role='stack_orig')
+        c.update(size=rng.randint(15301, 20000), w=255, grant='max', limit=255, peer_max=255, holds=(0, 0), hold_between=0.0, reply=(0.0, 0.002), zero=0.0,
+                 dt_interval=None, late_after_hold=None)
+        out.append(c)
+    # series of messages from one stack, a destination-specific transfer running and ending while a broadcast is between two packets
+    for i in range(100 if tier == 'quick' else 1200):
+        out.append(dict(kind='series', layer='j1939-22' if i % 2 else 'j1939-21', seed=rng.randrange(1 << 30)))
     for i in range(80 if tier == 'quick' else 800):
         c = xchg.gen_case(rng, role='stack_stack')
         c['w2'] = rng.choice([1, 2, 5, 255])
@@ -56,6 +65,12 @@ JUDGED = xchg.FLOW_KINDS + ('bam_too_fast', 'bam_too_slow', 'cmdt_too_fast', 'un
 
 
 def run_case(case):
+    if case.get('kind') == 'series':
+        from checks import c03
+        r = c03.run_series(case, pacing=True)
+        for k in ('expired_holds',):
+            r['obs'].setdefault(k, 0)
+        return r
     r = xchg.run_exchange(case)
     viol = M.Violations()
     for (kind, msg) in r['findings']:
